@@ -341,6 +341,6 @@ CLAIM = {
             "independence. _prepare_routes and Strategy._init_objects are interpreted for eight one- and two-route scenarios of "
             "explicit / dna() / default hyperparameters and each route's hp compared with the precedence the property states. "
             "IEEE guard: the float branch of dna_to_hp must bound its result by the declared range (the affine map overshoots in doubles). "
-            "Not decided: int parameters with non-integer bounds; exact equality of the last letter with max in floating point.",
+            "Not decided: int parameters with non-integer bounds; exact equality of the last letter with max in floating point. Effect analysis of the decode path (R5: a memo between dna_to_hp and the strategy must be keyed by the whole declaration).",
     "note": "Trusted: interpreter semantics; exact rational arithmetic.",
 }
